@@ -22,6 +22,8 @@ def run(ctx):
                  "K5": "every refinement loop has a recognised variant (strict progress / visited state)",
                  "K-range": "every detector returns an index in [0, n-2] (interior for all but Menger)"}.items():
         res.rule(k, v)
+    res.rule("K-dtype", "no detector stores a float into an array that inherits the input's dtype (integer curves would be truncated before the optimum is taken)")
+    d.dtype_guard(rc, "K-dtype", ["curvature", "dfdt", "menger", "lmethod"])
     d.curvature(rc, "K-range", "K1")
     d.dfdt(rc, "K-range", "K2", "K5")
     d.menger(rc, "K-range", "K3")
